@@ -170,7 +170,8 @@ class Packer(object):
                 raise RuntimeError("Mismatch length of the tensors")
 
             if len(tensor_shapes) == 0:
-                return self._obj
+                # nothing to fill in, but the caller still gets an object of its own
+                return deepcopy(self._obj)
 
             # check the tensor shapes
             for i, (tens, shape) in enumerate(zip(tensors, tensor_shapes)):
@@ -228,7 +229,7 @@ class Packer(object):
         if tensor_shapes is None:
             raise RuntimeError("Please execute self.get_param_tensor(%s) first" % str(unique))
         elif len(tensor_shapes) == 0:
-            return self._obj
+            return deepcopy(self._obj)
         else:
             assert tensor_numel_tot is not None, "Please report to Github"
             assert tensor_numels is not None, "Please report to Github"
